@@ -15,7 +15,8 @@ import (
 	"encoding/json"
 	"fmt"
 	"os"
-	"runtime/pprof"
+	"runtime/debug"
+	"sort"
 	"strings"
 	"time"
 
@@ -41,17 +42,23 @@ func churnItems(thorough bool) []workItem {
 	var cfgs []churnCfg
 	if !thorough {
 		cfgs = []churnCfg{
-			{Name: "1db-n3-s3-rf2", Nodes: 3, DBs: []string{"a"}, MaxShards: 3, MaxRF: 2},
-			{Name: "2db-n2-s3-rf2", Nodes: 2, DBs: []string{"a", "b"}, MaxShards: 3, MaxRF: 2},
-			{Name: "1db-n3-s2-rf2-lag1", Nodes: 3, DBs: []string{"a"}, MaxShards: 2, MaxRF: 2, Lag: 1},
-			{Name: "2db-n3-s3-rf2-depth", Nodes: 3, DBs: []string{"a", "b"}, MaxShards: 3, MaxRF: 2, MaxDepth: 5, Workers: 13},
+			{Name: "1db-n3-s3-rf2", Nodes: 3, DBs: []string{"a"}, MaxShards: 3, MaxRF: 2, Cost: 30},
+			{Name: "2db-n2-s2-rf2", Nodes: 2, DBs: []string{"a", "b"}, MaxShards: 2, MaxRF: 2, Cost: 12},
+			{Name: "2db-n3-s3-rf2-depth5", Nodes: 3, DBs: []string{"a", "b"}, MaxShards: 3, MaxRF: 2, MaxDepth: 5, Workers: 15, Cost: 8},
+			{Name: "1db-n3-s1-rf2-lag1-depth11", Nodes: 3, DBs: []string{"a"}, MaxShards: 1, MaxRF: 2, Lag: 1, MaxDepth: 11, Workers: 5, Cost: 6},
+			{Name: "1db-n2-s2-rf2-lag1-depth11", Nodes: 2, DBs: []string{"a"}, MaxShards: 2, MaxRF: 2, Lag: 1, MaxDepth: 11, Workers: 6, Cost: 6},
 		}
 	} else {
 		cfgs = []churnCfg{
-			{Name: "1db-n4-s4-rf3", Nodes: 4, DBs: []string{"a"}, MaxShards: 4, MaxRF: 3},
-			{Name: "2db-n2-s4-rf2", Nodes: 2, DBs: []string{"a", "b"}, MaxShards: 4, MaxRF: 2},
-			{Name: "1db-n3-s3-rf2-lag1", Nodes: 3, DBs: []string{"a"}, MaxShards: 3, MaxRF: 2, Lag: 1},
-			{Name: "2db-n4-s4-rf3-depth", Nodes: 4, DBs: []string{"a", "b"}, MaxShards: 4, MaxRF: 3, MaxDepth: 5, Workers: 13},
+			{Name: "1db-n3-s4-rf3", Nodes: 3, DBs: []string{"a"}, MaxShards: 4, MaxRF: 3, Cost: 420},
+			{Name: "1db-n4-s3-rf2", Nodes: 4, DBs: []string{"a"}, MaxShards: 3, MaxRF: 2, Cost: 400},
+			{Name: "1db-n4-s2-rf3", Nodes: 4, DBs: []string{"a"}, MaxShards: 2, MaxRF: 3, Cost: 170},
+			{Name: "2db-n2-s3-rf2", Nodes: 2, DBs: []string{"a", "b"}, MaxShards: 3, MaxRF: 2, Cost: 120},
+			{Name: "2db-n3-s1-rf2", Nodes: 3, DBs: []string{"a", "b"}, MaxShards: 1, MaxRF: 2, Cost: 10},
+			{Name: "1db-n4-s4-rf3-depth7", Nodes: 4, DBs: []string{"a"}, MaxShards: 4, MaxRF: 3, MaxDepth: 7, Workers: 16, Cost: 150},
+			{Name: "2db-n3-s3-rf2-depth6", Nodes: 3, DBs: []string{"a", "b"}, MaxShards: 3, MaxRF: 2, MaxDepth: 6, Workers: 15, Cost: 60},
+			{Name: "1db-n3-s2-rf2-lag1-depth13", Nodes: 3, DBs: []string{"a"}, MaxShards: 2, MaxRF: 2, Lag: 1, MaxDepth: 13, Workers: 7, Cost: 60},
+			{Name: "1db-n2-s2-rf2-lag2-depth12", Nodes: 2, DBs: []string{"a"}, MaxShards: 2, MaxRF: 2, Lag: 2, MaxDepth: 12, Workers: 6, Cost: 60},
 		}
 	}
 	var items []workItem
@@ -65,6 +72,31 @@ func churnItems(thorough bool) []workItem {
 		}
 	}
 	return items
+}
+
+// mine distributes the work items over the worker processes: longest (estimated) first onto the least loaded
+// worker; a deterministic function of the item list and the number of workers.
+func mine(items []workItem, shard, shards int) []workItem {
+	order := make([]int, len(items))
+	for i := range order {
+		order[i] = i
+	}
+	sort.SliceStable(order, func(a, b int) bool { return items[order[a]].cfg.Cost > items[order[b]].cfg.Cost })
+	load := make([]int, shards)
+	var out []workItem
+	for _, i := range order {
+		w := 0
+		for k := 1; k < shards; k++ {
+			if load[k] < load[w] {
+				w = k
+			}
+		}
+		load[w] += items[i].cfg.Cost + 1
+		if w == shard {
+			out = append(out, items[i])
+		}
+	}
+	return out
 }
 
 func runChurn(f *vevid.Flags, rep *vevid.Report) {
@@ -84,15 +116,25 @@ func runChurn(f *vevid.Flags, rep *vevid.Report) {
 		}
 	}
 	rep.Bounds["searches"] = cfgDesc
-	only := os.Getenv("C18_ONLY") // debugging aid: run a single search
-	for i, it := range items {
-		if only != "" {
-			if it.cfg.Name != only {
-				continue
-			}
-		} else if !f.Mine(int64(i)) {
-			continue
+	only := os.Getenv("C18_ONLY")                   // debugging aid: run a single search
+	if adhoc := os.Getenv("C18_CFG"); adhoc != "" { // debugging aid: run one ad-hoc search given as JSON
+		var c churnCfg
+		if err := json.Unmarshal([]byte(adhoc), &c); err != nil {
+			vevid.Fatal("C18_CFG: %v", err)
 		}
+		runSearch(f, rep, workItem{cfg: c})
+		return
+	}
+	todo := mine(items, f.Shard, f.Shards)
+	if only != "" {
+		todo = nil
+		for _, it := range items {
+			if it.cfg.Name == only {
+				todo = append(todo, it)
+			}
+		}
+	}
+	for _, it := range todo {
 		runSearch(f, rep, it)
 	}
 }
@@ -111,12 +153,22 @@ func runSearch(f *vevid.Flags, rep *vevid.Report, it workItem) {
 	if cfg.Workers > 1 {
 		se.Shard, se.Shards = it.shard, cfg.Workers
 	}
-	if err := se.Run(); err != nil {
-		vevid.Fatal("search %s: %v", cfg.Name, err)
-	}
 	name := cfg.Name
 	if cfg.Workers > 1 {
 		name = fmt.Sprintf("%s[%d/%d]", cfg.Name, it.shard, cfg.Workers)
+	}
+	if err := se.Run(); err != nil {
+		if len(se.Violations) == 0 {
+			vevid.Fatal("search %s: %v", cfg.Name, err)
+		}
+		// The engine found that a history does not replay to the same canonical state, AFTER oracle clauses had
+		// already failed on concrete executions of the real handlers. Those failures are observations of the code
+		// under test (typically the reason why it is order dependent: handlers iterate over Go maps) and are reported;
+		// the search itself is incomplete.
+		se.Capped = "aborted: " + err.Error()
+		if len(se.Capped) > 600 {
+			se.Capped = se.Capped[:600]
+		}
 	}
 	rep.States += se.States
 	rep.Transitions += se.Transitions
@@ -194,12 +246,7 @@ func main() {
 		os.Stdout = devnull
 	}
 	initSeeds()
-	if pf := os.Getenv("C18_CPUPROFILE"); pf != "" {
-		if fh, err := os.Create(pf); err == nil {
-			_ = pprof.StartCPUProfile(fh)
-			defer pprof.StopCPUProfile()
-		}
-	}
+	debug.SetGCPercent(800) // many short-lived managers; the live heap is tiny
 
 	if f.Replay != "" {
 		var raw json.RawMessage
